@@ -648,6 +648,9 @@ func (w *c15xWorld) step() {
 	}
 
 	ret, err := w.store.UpdateInvoice(w.ctx, ref, nil, cb)
+	if op == c15xOpAdd && applied && stateBefore == ContractOpen && !w.knows(key) && key != w.other {
+		vAssert(err == nil, "the store records a new HTLC (fresh circuit key) on an open invoice")
+	}
 	if !w.after(ref, ret, err, before, true) {
 		vReach("refused")
 		if added && key == w.other {
@@ -854,6 +857,19 @@ func (w *c15xWorld) ampStep() {
 	}
 
 	ret, err := w.store.UpdateInvoice(w.ctx, ref, hint, cb)
+	if op == c15xAmpAdd && applied && stateBefore == ContractOpen && !w.knows(key) && key != w.other {
+		// (a set that already holds a settled HTLC refuses further HTLCs in
+		// the update logic itself: ErrHTLCAlreadySettled, see C15 NOTES)
+		freshSet := true
+		for _, o := range w.sets {
+			if o == sid {
+				freshSet = false
+			}
+		}
+		if freshSet {
+			vAssert(err == nil, "the store records a new HTLC (fresh circuit key) on an open invoice")
+		}
+	}
 
 	// read back through the same reference and the modifier UpdateInvoice used
 	rref := ref
@@ -912,7 +928,6 @@ func (w *c15xWorld) ampStep() {
 	case c15xAmpCancelSet:
 		vReach("amp-cancel-set")
 	}
-	_ = stateBefore
 }
 
 func c15xAmpEntry(steps int, strict bool) {
